@@ -1,9 +1,13 @@
 (* C10/Property.v — property theorems only.
    rmatch (the regex engine) and ectab (the entity-category tables) are universally quantified:
    the theorems hold for every regex semantics and every table.
-   `guard` is no longer a finding guard: since the repairs a4e3dbdd (C10-F1) and 47cc754e (C10-F2)
-   it is only the stated input assumption wf (with entity categories in force the identity has no
-   attribute named ""). *)
+   `guard` = the stated input assumption wf (with entity categories in force the identity has no
+   attribute named "") and NOT in the class of the open finding C10-F5 (an ONLY_REQUIRED entity category is
+   configured and a REQUIRED RequestedAttribute carries a FriendlyName that, read before Name + NameFormat,
+   names another attribute: Policy.get_entity_categories reads the label first; c10_label_first_categories_refuted).
+   The classes of the repaired findings C10-F1 / C10-F2 are not excluded.
+   What a RequestedAttribute declares is Name + NameFormat (Spec.designators / required_names); the FriendlyName
+   is a label that stands in only when the attribute maps do not know the Name. *)
 From Coq Require Import String List Bool.
 From Verif Require Import Base.Str C10.Model C10.Spec C10.Proofs Base.Py Base.Py2 C10.Source C10.Source2.
 From VerifGen Require Import C10Src C10Src2.
@@ -39,7 +43,7 @@ Print Assumptions c10_missing_required_is_error.
 
 (* the whole property at the Policy level *)
 Theorem c10_policy_level : forall rmatch ectab x,
-  (forall be, i_entry x <> EServer be) -> wf ectab x = true ->
+  (forall be, i_entry x <> EServer be) -> guard ectab x = true ->
   spec rmatch ectab (flat x) (run rmatch ectab x).
 Proof. exact policy_level_holds. Qed.
 Print Assumptions c10_policy_level.
@@ -118,6 +122,36 @@ Theorem c10_nostore_v0_refuted : exists rmatch ectab x,
   i_entry x = ERestrict None /\ ~ spec rmatch ectab (flat x) (run_v0 rmatch ectab x).
 Proof. exact nostore_v0_refuted. Qed.
 Print Assumptions c10_nostore_v0_refuted.
+
+(* ROUND 6 - the FriendlyName of a RequestedAttribute is a label, not a declaration.
+   When the attribute maps know Name + NameFormat only the mapped local name and the Name itself designate an
+   identity attribute (this is what `allowed`, `must_fail` = c10_release_allowed, c10_missing_required_is_error,
+   c10_guarded are about) *)
+Theorem c10_label_designates_nothing : forall d l k,
+  resolved d = Some l -> designates d k -> lower k = lower l \/ lower k = lower (ra_name d).
+Proof. exact label_designates_nothing. Qed.
+Print Assumptions c10_label_designates_nothing.
+
+(* ... and the label stands in when they do not *)
+Theorem c10_unresolved_label_designates : forall d f,
+  resolved d = None -> ra_friendly d = Some f -> designates d f.
+Proof. exact unresolved_label_designates. Qed.
+Print Assumptions c10_unresolved_label_designates.
+
+(* a matching that reads the label first (seeded change C10-b) picks an identity attribute the requester never
+   declared while the declared one is not held *)
+Theorem c10_label_first_match_refuted : exists d a fn,
+  match_attr_name_label_first d a = Some fn /\ ~ designates d fn /\ match_attr_name d a = None.
+Proof. exact label_first_match_refuted. Qed.
+Print Assumptions c10_label_first_match_refuted.
+
+(* finding C10-F5 (OPEN): Policy.get_entity_categories reads the label first; with an ONLY_REQUIRED category the
+   faithful model releases an attribute the requester did not require - on an input that satisfies wf and lies in
+   class 3, the class `guard` excludes *)
+Theorem c10_label_first_categories_refuted : exists rmatch ectab x,
+  wf ectab x = true /\ class3 ectab x = true /\ ~ spec rmatch ectab (flat x) (run rmatch ectab x).
+Proof. exact label_first_categories_refuted. Qed.
+Print Assumptions c10_label_first_categories_refuted.
 
 (* the boolean spec that Coq evaluates on the implementation's recorded output is the stated spec *)
 Theorem c10_spec_reflect : forall rmatch ectab x o,
